@@ -321,7 +321,11 @@ class Driver:
 
     def __init__(self):
         exe = os.path.join(LEAN, ".lake", "build", "bin", "cpfdriver")
-        self.p = subprocess.Popen([exe], stdin=subprocess.PIPE, stdout=subprocess.PIPE, stderr=subprocess.DEVNULL)
+        def limit():
+            # a runaway model computation must fail this one check, not take the machine down
+            import resource
+            resource.setrlimit(resource.RLIMIT_AS, (16 << 30, 16 << 30))
+        self.p = subprocess.Popen([exe], stdin=subprocess.PIPE, stdout=subprocess.PIPE, stderr=subprocess.DEVNULL, preexec_fn=limit)
 
     def call(self, *fields):
         line = "\t".join(esc(f) for f in fields) + "\n"
